@@ -26,9 +26,11 @@ type state struct {
 	name string    // The name of the template.
 	meta *metadata // Additional template metadata.
 
-	current *parse.BlockNode              // Current block, may be nil.
-	blocks  []map[string]*parse.BlockNode // Block scopes.
-	macros  map[string]*parse.MacroNode   // Imported macros.
+	current *parse.BlockNode // Current block, may be nil.
+
+	currentName string                        // The name the current block was resolved under: its own, or the alias it was imported as.
+	blocks      []map[string]*parse.BlockNode // Block scopes.
+	macros      map[string]*parse.MacroNode   // Imported macros.
 
 	localMacros map[string]*parse.MacroNode // Macros defined in the current template.
 
@@ -203,10 +205,10 @@ func (s *state) getBlock(name string) *parse.BlockNode {
 
 // Method getParentBlock returns the definition that follows the given block
 // in the chain of block scopes, i.e. the version it overrides.
-func (s *state) getParentBlock(cur *parse.BlockNode) *parse.BlockNode {
+func (s *state) getParentBlock(cur *parse.BlockNode, name string) *parse.BlockNode {
 	curFound := false
 	for _, blocks := range s.blocks {
-		if block, ok := blocks[cur.Name]; ok {
+		if block, ok := blocks[name]; ok {
 			if curFound {
 				return block
 			}
@@ -220,29 +222,29 @@ func (s *state) getParentBlock(cur *parse.BlockNode) *parse.BlockNode {
 
 // Method walkBlock renders the given block definition, making it the current
 // block and its origin the current template name for the duration.
-func (s *state) walkBlock(block *parse.BlockNode) error {
+func (s *state) walkBlock(block *parse.BlockNode, name string) error {
 	if block.Origin != "" {
 		defer func(name string) {
 			s.name = name
 		}(s.name)
 		s.name = block.Origin
 	}
-	prev := s.current
-	s.current = block
+	prev, prevName := s.current, s.currentName
+	s.current, s.currentName = block, name
 	defer func() {
-		s.current = prev
+		s.current, s.currentName = prev, prevName
 	}()
 	return s.walk(block.Body)
 }
 
 // Method captureBlock renders the given block definition into a string.
-func (s *state) captureBlock(block *parse.BlockNode) (Value, error) {
+func (s *state) captureBlock(block *parse.BlockNode, name string) (Value, error) {
 	defer func(out io.Writer) {
 		s.out = out
 	}(s.out)
 	buf := &bytes.Buffer{}
 	s.out = buf
-	if err := s.walkBlock(block); err != nil {
+	if err := s.walkBlock(block, name); err != nil {
 		return nil, err
 	}
 	return buf.String(), nil
@@ -297,7 +299,7 @@ func (s *state) walk(node parse.Node) error {
 	case *parse.BlockNode:
 		name := node.Name
 		if block := s.getBlock(name); block != nil {
-			return s.walkBlock(block)
+			return s.walkBlock(block, name)
 		}
 		// TODO: It seems this should never occur.
 		return errors.New("Unable to locate block " + name)
@@ -840,9 +842,11 @@ func (s *state) evalFunction(exp *parse.FuncExpr) (Value, error) {
 		if s.current == nil {
 			return nil, errors.New("not inside a block!")
 		}
-		name := s.current.Name
-		if blk := s.getParentBlock(s.current); blk != nil {
-			return s.captureBlock(blk)
+		// The block may have been imported under an alias: its ancestors'
+		// versions are those of the name it goes by here.
+		name := s.currentName
+		if blk := s.getParentBlock(s.current, name); blk != nil {
+			return s.captureBlock(blk, name)
 		}
 		return nil, errors.New("Unable to locate block \"" + name + "\"")
 	case "block":
@@ -856,7 +860,7 @@ func (s *state) evalFunction(exp *parse.FuncExpr) (Value, error) {
 		}
 		name := CoerceString(val)
 		if blk := s.getBlock(name); blk != nil {
-			return s.captureBlock(blk)
+			return s.captureBlock(blk, name)
 		}
 		return nil, errors.New("Unable to locate block \"" + name + "\"")
 	}
